@@ -260,3 +260,16 @@ Example C07_program_example :
   | _ => False
   end.
 Proof. exact FuncTrip.program_example. Qed.
+
+(* ... and BOTH SIDES for whole programs, on the same tree (proofs/GenProg.v): the generator model - visit_FileAST, visit_FuncDef, visit_Decl /
+   _generate_decl / _generate_type with the FuncDecl modifier, visit_Compound at indentation 0 - prints [ptextP rp p] from [prog_emb rp p];
+   that text with blanks and newlines removed is the concatenation of the spellings of [prog_toks rp p]; and the parser model's parse_tokens
+   turns these tokens, followed by the end of the input, back into [prog_emb rp p].  parse . generate = id, token level, whole programs. *)
+From PV Require GenProg.
+Theorem C07_program_roundtrip : forall (P: Type) rp (p: list FuncTrip.fdef), p <> [] -> Forall FuncTrip.fwf p -> Forall (GenProg.fgen_ok) p -> Forall (GenProg.ftok_ok rp) p ->
+  (forall fuel, (list_sum (map GenProg.fcost p) + 2 <= fuel)%nat -> visit unit rp fuel (FuncTrip.prog_emb rp p) Z0 = GOk (GenProg.ptextP rp p, Z0)) /\
+  despace2 (GenProg.ptextP rp p) = spell (FuncTrip.prog_toks rp p) /\
+  (forall items le eof file, Spell P le (FuncTrip.prog_toks rp p) -> UpR P [[]] items le -> List.length items = List.length le ->
+   exists f0 N s', (forall fu, (f0 <= fu)%nat -> parse_tokens P fu (init_pstate P items eof file) = Ok (N, s')) /\ strip N = FuncTrip.prog_emb rp p).
+Proof. exact GenProg.program_roundtrip. Qed.
+Print Assumptions C07_program_roundtrip.
